@@ -351,6 +351,33 @@ class Ctx:
     self.stats[name] = self.stats.get(name, 0) + k
 
 
+class CaseTimeout(BaseException):
+  pass
+
+
+def guarded_evaluate(prop: 'Property', case: Any, ctx: 'Ctx') -> Outcome:
+  """prop.evaluate under a SIGALRM watchdog: an implementation that never returns on a case is a
+  concrete failing input (the limit is generous: cases normally take well under a second)."""
+  import signal
+  limit = float(os.environ.get('VERIF_CASE_TIMEOUT_S', getattr(prop, 'CASE_TIMEOUT_S', 300)))
+
+  def handler(signum, frame):
+    raise CaseTimeout()
+  try:
+    old = signal.signal(signal.SIGALRM, handler)
+  except ValueError:      # not in the main thread
+    return prop.evaluate(case, ctx)
+  signal.setitimer(signal.ITIMER_REAL, limit)
+  try:
+    return prop.evaluate(case, ctx)
+  except CaseTimeout:
+    return Outcome(oracle_fail=f'the case did not terminate within {limit:.0f} s (the implementation hangs or '
+                               f'loops on this input)', key=f'{prop.ID}/case-timeout', tags=('case-timeout',))
+  finally:
+    signal.setitimer(signal.ITIMER_REAL, 0)
+    signal.signal(signal.SIGALRM, old)
+
+
 def load_known_findings() -> List[dict]:
   p = os.path.join(VERIF, 'known_findings.json')
   if not os.path.exists(p):
@@ -381,7 +408,7 @@ def _shrink(prop: Property, case: Any, ctx: Ctx, pred: Callable[[Outcome], bool]
             budget_s: float = 60.0) -> (Any, Outcome):
   """Greedy delta-debugging using the property's shrink candidates."""
   best = case
-  best_out = prop.evaluate(case, ctx)
+  best_out = guarded_evaluate(prop, case, ctx)
   t_end = time.time() + budget_s
   improved = True
   while improved and time.time() < t_end:
@@ -390,7 +417,7 @@ def _shrink(prop: Property, case: Any, ctx: Ctx, pred: Callable[[Outcome], bool]
       if time.time() > t_end:
         break
       try:
-        out = prop.evaluate(cand, ctx)
+        out = guarded_evaluate(prop, cand, ctx)
       except InfraError:
         raise
       except Exception:   # a shrunk candidate may be malformed; skip it
@@ -453,13 +480,13 @@ def run_check(prop: Property, tier: str, replay: Optional[str] = None) -> int:
   try:
     n_corpus = 0
     for case in load_corpus(pid):
-      handle(case, prop.evaluate(case, ctx))
+      handle(case, guarded_evaluate(prop, case, ctx))
       n_corpus += 1
     for case in prop.gen_cases(ctx.rng, tier):
       if time.time() - t0 > budget:
         ctx.stats['budget_exhausted'] = True
         break
-      handle(case, prop.evaluate(case, ctx))
+      handle(case, guarded_evaluate(prop, case, ctx))
       if len(oracle_failures) >= 3:
         break
     for out in prop.finish(ctx):
@@ -473,7 +500,7 @@ def run_check(prop: Property, tier: str, replay: Optional[str] = None) -> int:
       for case, out in corr_failures[:3]:
         for cand in list(prop.shrink(case))[:50]:
           try:
-            o = prop.evaluate(cand, ctx)
+            o = guarded_evaluate(prop, cand, ctx)
           except InfraError:
             raise
           except Exception:
@@ -490,7 +517,7 @@ def run_check(prop: Property, tier: str, replay: Optional[str] = None) -> int:
         for case in prop.search_cases(srng):
           if time.time() - t_search > max(30.0, budget / 2):
             break
-          o = prop.evaluate(case, ctx)
+          o = guarded_evaluate(prop, case, ctx)
           searched += 1
           if o.oracle_fail and not (o.key and o.key in known_keys):
             oracle_failures.append((case, o))
@@ -598,7 +625,7 @@ def _run_replay(prop: Property, ctx: Ctx, path: str) -> int:
     print(json.dumps(data.get('no_longer_checks'), indent=1, default=str))
     print(f'replay {path}: no concrete input recorded (no-failing-input-found)')
     return 1
-  out = prop.evaluate(data['case'], ctx)
+  out = guarded_evaluate(prop, data['case'], ctx)
   print(json.dumps({'case': data['case'], 'oracle': out.oracle_fail, 'correspondence': out.corr_fail,
                     'key': out.key, 'detail': out.detail}, indent=1, default=str))
   if out.oracle_fail or out.corr_fail:
